@@ -86,10 +86,11 @@ def gen_spec(rng, *, max_objects=60, tier="quick") -> dict:
         # large tables: the compressed body (level 0 = stored) or the v1 text exceeds several _BUFSIZE reads, so
         # the default 16 KiB schedule is itself multi-chunk
         n = rng.choice([450, 900, 2000] if tier == "thorough" else [450])
-    project = rng.choice(["proj", "My Project", "Ünï Proj", "", "p"])
+    project = rng.choice(["proj", "My Project", "Ünï Proj", "", "p", "Acme: The Toolkit", " lead space", "a  b",
+                          "x:y:z", "#hash # Project: inner", "tab\there"])
     if rng.random() < 0.12:
         project = "long " + "n" * rng.choice([900, 1100, 2500, 4000])  # header line longer than ~1000 bytes
-    pversion = rng.choice(["1.0", "", "2.3.4rc1", "β", "0"])
+    pversion = rng.choice(["1.0", "", "2.3.4rc1", "β", "0", "2:1.4.0", "2024-01-01T10:30:00", " 1.0", "1.0 beta: two"])
     lines: list[str] = []
     keys: list[tuple[str, str]] = []
     for _ in range(n):
